@@ -70,6 +70,45 @@ func classifyMutants(tier string) []classifiedMutant {
 	return out
 }
 
+// secondOrderMutants: every PAIR of edits of three tiny seeds (thorough tier of C14 only).
+func secondOrderMutants() []classifiedMutant {
+	spec := specCFG()
+	var out []classifiedMutant
+	// second order: every PAIR of edits (the single edits above applied to every single-edit mutant) of three tiny
+	// seeds - a syntax-only grammar, one token, one token through a regular definition
+	for _, seed := range []gram.Seed{gram.Seeds()[3], {Name: "tiny-token", Text: "t : 'a' ;\n"}, {Name: "tiny-regdef", Text: "_r : 'a' ;\nt : _r ;\n"}} {
+		toks, err := gram.Lexemes(seed.Text)
+		if err != nil || len(toks) > 12 {
+			ev.Inconsistent("second-order seed %s: %v (%d tokens)", seed.Name, err, len(toks))
+		}
+		seen := map[string]bool{}
+		var ms []gram.Mutant
+		for _, m1 := range gram.Mutants(toks) {
+			for _, m2 := range gram.Mutants(m1.Toks) {
+				text := gram.Canonical(m2.Toks)
+				if seen[text] {
+					continue
+				}
+				seen[text] = true
+				ms = append(ms, gram.Mutant{Kind: "pair", Desc: m1.Desc + ", then " + m2.Desc, Toks: m2.Toks, TouchesSDT: m1.TouchesSDT || m2.TouchesSDT})
+			}
+		}
+		cs := make([]classifiedMutant, len(ms))
+		gen.ParallelFor(len(ms), 0, func(i int) {
+			m := ms[i]
+			c := classifiedMutant{Seed: seed.Name, M: m, Text: gram.Canonical(m.Toks), Class: "wellformed"}
+			if !spec.Accepts(gram.SpecTerminals(m.Toks)) {
+				c.Class, c.Why = "syntax", "token sequence is not a sentence of spec/gocc2.ebnf"
+			} else if se := gram.SymbolErrors(m.Toks); len(se) > 0 {
+				c.Class, c.Why = "symbols", se[0]
+			}
+			cs[i] = c
+		})
+		out = append(out, cs...)
+	}
+	return out
+}
+
 func init() {
 	checks["C14"] = func(tier string) int {
 		t := gen.Build()
@@ -77,6 +116,9 @@ func init() {
 		sw, done := newSweeper(t, "c14")
 		defer done()
 		muts := classifyMutants(tier)
+		if tier == "thorough" {
+			muts = append(muts, secondOrderMutants()...)
+		}
 		texts := make([]string, len(muts))
 		for i, m := range muts {
 			texts[i] = m.Text
